@@ -183,6 +183,10 @@ type Rig struct {
 
 	// Snapshot, if set, is called at every observation point.
 	Snapshot func(ctx sdk.Context) any
+	// SnapPanics: panics raised by Snapshot (by the module's query code under it), oldest first.
+	SnapPanics []string
+	// SnapRecover: set by observers that cope with a missing (nil) snapshot.
+	SnapRecover bool
 	// Ops are harness operations callable through InjectOp.
 	Ops map[string]func(ctx sdk.Context, args json.RawMessage) error
 
@@ -269,7 +273,7 @@ func (r *Rig) newApp(db dbm.DB) {
 	// block observation: wrap (not replace) the application's own blockers
 	app.SetBeginBlocker(func(ctx sdk.Context) (bb sdk.BeginBlock, err error) {
 		if r.cur != nil && r.Snapshot != nil {
-			r.cur.PreBegin = r.Snapshot(ctx)
+			r.cur.PreBegin = r.safeSnapshot(ctx)
 		}
 		defer func() {
 			if rec := recover(); rec != nil {
@@ -284,14 +288,14 @@ func (r *Rig) newApp(db dbm.DB) {
 		if r.cur != nil {
 			r.cur.BeginEvents = append(r.cur.BeginEvents, bb.Events...)
 			if r.Snapshot != nil {
-				r.cur.PostBegin = r.Snapshot(ctx)
+				r.cur.PostBegin = r.safeSnapshot(ctx)
 			}
 		}
 		return bb, err
 	})
 	app.SetEndBlocker(func(ctx sdk.Context) (eb sdk.EndBlock, err error) {
 		if r.cur != nil && r.Snapshot != nil {
-			r.cur.PreEnd = r.Snapshot(ctx)
+			r.cur.PreEnd = r.safeSnapshot(ctx)
 		}
 		defer func() {
 			if rec := recover(); rec != nil {
@@ -306,7 +310,7 @@ func (r *Rig) newApp(db dbm.DB) {
 		if r.cur != nil {
 			r.cur.EndEvents = append(r.cur.EndEvents, eb.Events...)
 			if r.Snapshot != nil {
-				r.cur.PostEnd = r.Snapshot(ctx)
+				r.cur.PostEnd = r.safeSnapshot(ctx)
 			}
 		}
 		return eb, err
@@ -751,17 +755,36 @@ func (r *Rig) locate(ctx sdk.Context) *TxRecord {
 	return nil
 }
 
+// safeSnapshot takes the observer's snapshot; a panic inside the module's own query code is kept (SnapPanics) instead
+// of unwinding into the transaction being observed, where it would turn an accepted transaction into a refused one.
+// Running out of gas is not such a panic and is passed on.
+func (r *Rig) safeSnapshot(ctx sdk.Context) (snap any) {
+	if !r.SnapRecover {
+		return r.Snapshot(ctx)
+	}
+	defer func() {
+		if v := recover(); v != nil {
+			if _, oog := v.(storetypes.ErrorOutOfGas); oog {
+				panic(v)
+			}
+			r.SnapPanics = append(r.SnapPanics, fmt.Sprintf("height %d: %v", ctx.BlockHeight(), v))
+			snap = nil
+		}
+	}()
+	return r.Snapshot(ctx)
+}
+
 func (r *Rig) onPreTx(ctx sdk.Context, tx sdk.Tx) {
 	rec := r.locate(ctx)
 	if rec != nil && r.Snapshot != nil {
-		rec.Pre = r.Snapshot(ctx)
+		rec.Pre = r.safeSnapshot(ctx)
 	}
 }
 
 func (r *Rig) onPostTx(ctx sdk.Context, tx sdk.Tx) {
 	rec := r.locate(ctx)
 	if rec != nil && r.Snapshot != nil {
-		rec.Post = r.Snapshot(ctx)
+		rec.Post = r.safeSnapshot(ctx)
 	}
 	if rec != nil {
 		r.txIdx++
